@@ -121,7 +121,7 @@ func cmdCheck(args []string) int {
 			cmd := exec.Command(self, "worker", "-prop", p.ID, fmt.Sprintf("-quick=%v", quick), "-seed", fmt.Sprint(seed),
 				"-shard", fmt.Sprint(i), "-nshards", fmt.Sprint(workers), "-budget", fmt.Sprintf("%ds", budgetS), "-sweepbudget", fmt.Sprintf("%ds", sweepS),
 				"-out", outFile, "-replaydir", replayDir)
-			cmd.Env = append(os.Environ(), "GOMAXPROCS=2", "GORACE=halt_on_error=0 exitcode=0")
+			cmd.Env = append(os.Environ(), "GOMAXPROCS=2")
 			b, err := cmd.CombinedOutput()
 			results[i].log = string(b)
 			if err != nil {
@@ -238,7 +238,6 @@ func cmdCheck(args []string) int {
 		}
 		seen[key] = true
 		cmd := exec.Command(self, "replay", path)
-		cmd.Env = append(os.Environ(), "GORACE=halt_on_error=0 exitcode=0")
 		out, _ := cmd.CombinedOutput()
 		if !strings.Contains(string(out), "REPLAY: same violation as recorded") {
 			fmt.Printf("HARNESS: violation in %s did not replay identically in a fresh process; not reported as a violation\n%s\n", path, tail(string(out), 20))
